@@ -48,6 +48,7 @@ def check(run):
     with R.as_rule('C07.timeout'):
         C15.pong(R)          # the ping timeout fires whenever due (Unresponsive -> Disconnected: iteration ends)
         C15.cadence(R)
+        C15.params(R)        # the timeouts the application asked for (and the documented defaults) reach the checks
 
 
 def _event_names(R, g, rd, y):
